@@ -388,7 +388,15 @@ def generate_project(rng, size="small", fw=None, micro800=False):
         for i in range(rng.randint(0, 3)):
             s = new_tag(scope)
             mod = rng.choice(["Local", _name(rng, scope, 6)])
-            s.name = f"{mod}:{rng.randrange(1, 17)}:{rng.choice('IOCS')}" if rng.random() < 0.7 else f"{mod}:{rng.choice('IOCS')}"
+            r_ = rng.random()
+            if r_ < 0.6:
+                s.name = f"{mod}:{rng.randrange(1, 17)}:{rng.choice('IOCS')}"
+            elif r_ < 0.8:
+                s.name = f"{mod}:{rng.choice('IOCS')}"
+            elif r_ < 0.9:   # rarer spellings of module-defined tags: non-numeric middle part, numbered connection
+                s.name = f"{mod}:{_name(rng, set(), 4)}:{rng.choice('IOCS')}"
+            else:
+                s.name = f"{mod}:{rng.randrange(1, 17)}:{rng.choice('IOCS')}{rng.randrange(1, 4)}"
             if any(x.name == s.name for x in syms):
                 continue
             s.kind = "module"
